@@ -241,8 +241,30 @@ func mergeStringMaps(src, dest map[string]any) {
 			}
 			continue
 		}
-		// Otherwise, set the value directly
-		dest[srcKey] = srcValue
+		// Otherwise, set the value directly. Nested maps are copied so that
+		// the levels of the config tree never share (and later mutate) one map.
+		dest[srcKey] = copyMapValue(srcValue)
+	}
+}
+
+// copyMapValue returns a deep copy of v if it is a (possibly nested) map or
+// slice, and v itself otherwise.
+func copyMapValue(v any) any {
+	switch typed := v.(type) {
+	case map[string]any:
+		copied := make(map[string]any, len(typed))
+		for key, value := range typed {
+			copied[key] = copyMapValue(value)
+		}
+		return copied
+	case []any:
+		copied := make([]any, len(typed))
+		for idx, value := range typed {
+			copied[idx] = copyMapValue(value)
+		}
+		return copied
+	default:
+		return v
 	}
 }
 
